@@ -8,6 +8,7 @@ CLAIMED = {
     'C05': (T, 'idempotence of blank-line trimming, escaping and read-back proved; attribute re-sort / class re-split identities covered by correspondence only (partial)', None),
     'C09': (T, Q, None),
     'C19': (T, Q + '; text fidelity proved for text_string / lines / escaping, placement from the generated alignment table', None),
+    'C10': (T, 'order independence proved for the abstract retry loop over a monotone step; the concrete step is not monotone (K3, excluded by its schedule-based class); all-orders oracle on the implementation', None),
     'C11': (T, Q, None),
     'C12': (T, Q, None),
     'C13': (T, Q, None),
